@@ -78,6 +78,7 @@ class Unit:
         self.callees = callees or {}     # name -> (gen name, params, defaults)
         self.time_var = time_var
         self.skip_names = set()
+        self.streams = set()     # dotted names of file.read methods
         self.defs = []
 
     # ------------------------------------------------------------ expressions
@@ -260,11 +261,22 @@ class Unit:
                 fname not in self.inline and fname not in self.externs \
                 and not is_ctor:
             raise Unsupported(node, "keywords")
-        if fname in ("min", "max") and len(node.args) == 2:
+        if fname in ("min", "max") and len(node.args) >= 2:
             op = "pmin2" if fname == "min" else "pmax2"
-            return self.expr(cx, env, node.args[0], lambda a: self.expr(
-                cx, env, node.args[1], lambda b: self.bindk(
-                    cx, "%s %s %s" % (op, a, b), k)))
+
+            def fold(items):
+                def go(i, acc):
+                    if i == len(items):
+                        return k(acc)
+                    return self.bindk(cx, "%s %s %s" % (op, acc, items[i]),
+                                      lambda v: go(i + 1, v))
+                return go(1, items[0])
+            return self.seq(cx, env, node.args, fold)
+        if isinstance(fn, ast.Attribute) and fn.attr == "find" and \
+                len(node.args) == 3:
+            return self.expr(cx, env, fn.value, lambda v: self.seq(
+                cx, env, node.args, lambda it: self.bindk(
+                    cx, "pfind %s %s %s %s" % (v, it[0], it[1], it[2]), k)))
         if fname == "len" and len(node.args) == 1:
             return self.expr(cx, env, node.args[0], lambda a: self.bindk(
                 cx, "plen %s" % a, k))
@@ -274,7 +286,7 @@ class Unit:
         if fname == "tuple" and len(node.args) == 1:
             return self.expr(cx, env, node.args[0], k)
         if fname == "time" and not node.args and self.time_var:
-            return k(self.time_var)
+            return k(env["__clock"])
         if fname == "str" and len(node.args) == 1:
             obj = self.dotted(node.args[0])
             if obj is not None and ("%s.__class__" % obj) in env:
@@ -309,7 +321,7 @@ class Unit:
                     nodes.append(defaults[p])
                 else:
                     raise Unsupported(node, "missing argument %s" % p)
-            extra = " " + self.time_var if self.time_var else ""
+            extra = " " + env["__clock"] if self.time_var else ""
             return self.seq(cx, env, nodes, lambda items: self.bindk(
                 cx, "%s %s%s" % (gen, " ".join(items), extra), k))
         if fname in self.externs and not isinstance(self.externs[fname], str):
@@ -442,6 +454,25 @@ class Unit:
                     self.dotted(st.targets[0]) in self.skip_names:
                 return after(env)
 
+            if isinstance(st.value, ast.Call) and \
+                    self.dotted(st.value.func) in self.streams and \
+                    len(st.value.args) == 1 and len(st.targets) == 1:
+                fobj = self.dotted(st.value.func).rsplit(".", 1)[0]
+                data, fnew, lnew = cx.fresh("data"), cx.fresh("file"), \
+                    cx.fresh("log")
+
+                def after_read(arg):
+                    env2 = self.assign(cx, env, st.targets[0], data)
+                    env2[fobj] = fnew
+                    env2["__log"] = lnew
+                    return ("pr <- stream_read %s %s ;; "
+                            "let '(%s, %s) := pr in\n"
+                            "n_ <- plen %s ;;\n"
+                            "%s <- pappend %s (PTuple [%s; n_]) ;;\n%s" % (
+                                env[fobj], arg, data, fnew, data, lnew,
+                                env["__log"], arg, after(env2)))
+                return self.expr(cx, env, st.value.args[0], after_read)
+
             def bind_all(v):
                 name = cx.fresh(self.dotted(st.targets[0]) or "x")
                 env2 = env
@@ -468,6 +499,9 @@ class Unit:
                 if cx.result is not None:
                     return cx.result(env)
                 return "Ok PNone"
+            if cx.retwrap is not None:
+                return self.expr(cx, env, st.value,
+                                 lambda a: cx.retwrap(env, a))
             return self.expr(cx, env, st.value, lambda a: "Ok %s" % a)
         if isinstance(st, ast.Raise):
             exc = st.exc
@@ -483,6 +517,12 @@ class Unit:
             if loopk is None:
                 raise Unsupported(st, "continue outside loop")
             return loopk(env)
+        if isinstance(st, ast.Break):
+            if cx.breakk is None:
+                raise Unsupported(st, "break outside while")
+            return cx.breakk(env)
+        if isinstance(st, ast.While):
+            return self.while_loop(cx, env, st, after)
         if isinstance(st, ast.Delete):
             if len(st.targets) == 1 and \
                     isinstance(st.targets[0], ast.Subscript):
@@ -630,15 +670,72 @@ class Unit:
                 it, lname, " ".join(env.get(n, "PNone")
                                     for n in free + carried))))
 
+    def while_loop(self, cx, env, st, after):
+        """Fixpoint on explicit fuel; the test is evaluated first, one unit
+        of fuel is used per execution of the body"""
+        if st.orelse:
+            raise Unsupported(st, "while-else")
+        carried = self.names_assigned(st.body)
+        if any(isinstance(n, ast.Call) and self.dotted(n.func) in self.streams
+               for n in ast.walk(st)):
+            for extra in ("__log",) + tuple(
+                    m.rsplit(".", 1)[0] for m in self.streams):
+                if extra not in carried:
+                    carried.append(extra)
+        free = [n for n in env if n not in carried
+                and not n.endswith(".__class__")]
+        lname = "%s_loop_%d" % (cx.name, len(cx.loops) + 1)
+        params = {n: cx.fresh(n) for n in free + carried}
+        inner = dict(params)
+        inner.update({n: v for n, v in env.items()
+                      if n.endswith(".__class__")})
+        order = free + carried
+
+        def again(e):
+            return "%s fuel_ %s" % (lname, " ".join(
+                e.get(n, "PNone") for n in order))
+        exitn = cx.fresh("exit")
+
+        def leave(e):
+            return "%s %s" % (exitn, " ".join(
+                e.get(n, "PNone") for n in order))
+        saved = cx.breakk
+        cx.breakk = leave
+        body = self.block(cx, inner, st.body, again, again)
+        cx.breakk = saved
+        exit_params = {n: cx.fresh(n) for n in order}
+        exit_env = dict(exit_params)
+        exit_env.update({n: v for n, v in env.items()
+                         if n.endswith(".__class__")})
+        done = after(exit_env)
+        sig = " ".join("(%s : pv)" % params[n] for n in order)
+        esig = " ".join("(%s : pv)" % exit_params[n] for n in order)
+        test = self.expr(
+            cx, inner, st.test, lambda c:
+            "if truthy %s then\n match fuel with\n | O => Err (Raised "
+            "\"OutOfFuel\" PNone)\n | S fuel_ => (%s)\n end\nelse %s" % (
+                c, body, leave(inner)))
+        cx.loops.append(
+            "Fixpoint %s (fuel : nat) %s {struct fuel} : res pv :=\n"
+            "let %s := fun %s => (%s) in\n%s." % (
+                lname, sig, exitn, esig, done, test))
+        return "%s fuel %s" % (lname, " ".join(
+            env.get(n, "PNone") for n in order))
+
     # ------------------------------------------------------------ functions
     def function(self, fundef, gen_name, params, extra_params=(),
-                 init_env=None, body=None, result=None):
+                 init_env=None, body=None, result=None, retwrap=None,
+                 fuel=False):
         cx = Ctx(self, gen_name)
         cx.fundef = fundef
         cx.result = result
+        cx.retwrap = retwrap
+        cx.breakk = None
         env = dict(init_env or {})
         for p in params:
             env[p] = mangle(p)
+        if self.time_var:
+            env["__clock"] = self.time_var
         is_gen = any(isinstance(n, ast.Yield) for n in ast.walk(fundef))
         if is_gen:
             env["__out"] = "(PList [])"
@@ -654,6 +751,8 @@ class Unit:
         code = self.block(cx, env, stmts, end)
         sig = " ".join("(%s : pv)" % mangle(p) for p in params)
         sig += "".join(" (%s : pv)" % p for p in extra_params)
+        if fuel:
+            sig += " (fuel : nat)"
         text = "\n\n".join(cx.loops + [
             "Definition %s %s : res pv :=\n%s." % (gen_name, sig, code)])
         self.defs.append(text)
@@ -776,10 +875,33 @@ def gen_range():
                       "__start_response__ range block, __range_generator__")
 
 
-TARGETS = {"token": gen_token, "range": gen_range}
+def gen_cached():
+    """request.CachedInput.read / readline -> gen/CachedGen.v"""
+    tree = parse("poorwsgi/request.py")
+    unit = Unit(time_var="clock")
+    unit.streams = {"self.__file.read"}
+    state = ["self.__buffer", "self.__todo", "self.__file", "self.__timeout",
+             "self.block_size"]
+
+    def wrap(env, value):
+        return "Ok (PTuple [%s;%s;%s;%s;%s])" % (
+            value, env["self.__buffer"], env["self.__todo"],
+            env["self.__file"], env["__log"])
+    for name, fuel in (("read", False), ("readline", True)):
+        fun = find_function(tree, name, "CachedInput")
+        unit.function(fun, "gen_cached_" + name, state + ["size"],
+                      extra_params=("clock",),
+                      init_env={"__log": "(PList [])"}, retwrap=wrap,
+                      fuel=fuel)
+    return unit.write("CachedGen.v", "poorwsgi/request.py CachedInput.read, "
+                      "readline")
 
 
-OUTPUT = {"token": "TokenGen.v", "range": "RangeGen.v"}
+TARGETS = {"token": gen_token, "range": gen_range, "cached": gen_cached}
+
+
+OUTPUT = {"token": "TokenGen.v", "range": "RangeGen.v",
+          "cached": "CachedGen.v"}
 
 
 def regenerate(names=None):
